@@ -261,6 +261,9 @@ fn encode_erased<C: Case>(p: usize) -> Value {
     unsafe { (&*(p as *const C)).encode() }
 }
 
+/// replay files of violations already established in this run: a later hang does not take them back
+static ESTABLISHED: Mutex<Vec<std::path::PathBuf>> = Mutex::new(Vec::new());
+
 pub fn start_case_watchdog(prop: &'static str, budget_s: u64) {
     std::thread::spawn(move || loop {
         std::thread::sleep(std::time::Duration::from_millis(500));
@@ -274,6 +277,16 @@ pub fn start_case_watchdog(prop: &'static str, budget_s: u64) {
                     let path = dir.join(format!("{}-watchdog-{}.json", prop, sub));
                     let doc = json!({"property": prop, "subcheck": sub, "case": case, "observed": format!("case did not finish within {} s", budget_s)});
                     let _ = std::fs::write(&path, serde_json::to_string_pretty(&doc).unwrap());
+                    let established = ESTABLISHED.lock().map(|v| v.clone()).unwrap_or_default();
+                    if !established.is_empty() {
+                        // violations found before the hang stand on their own (each has its replay file); the
+                        // unfinished case adds nothing to them and is only mentioned
+                        println!("[{}] note: a case of sub-check {} did not finish within {} s (case={}); reporting the violations established before that", prop, sub, budget_s, path.display());
+                        for r in &established {
+                            println!("VIOLATION property={} replay={}", prop, r.display());
+                        }
+                        std::process::exit(1);
+                    }
                     println!("INCONCLUSIVE property={} watchdog: a case of sub-check {} did not finish within {} s (slowness is never reported as a violation); case={}", prop, sub, budget_s, path.display());
                     std::process::exit(2);
                 }
@@ -535,6 +548,9 @@ impl Ctx {
         });
         let _ = std::fs::write(&path, serde_json::to_string_pretty(&doc).unwrap());
         eprintln!("[{}] {} FAILED: {}\n    case: {}", self.prop, sub, f.message, f.case);
+        if let Ok(mut e) = ESTABLISHED.lock() {
+            e.push(path.clone());
+        }
         self.violations.push(Violation { subcheck: sub.into(), case: f.case, message: f.message, replay: path });
     }
 
@@ -549,6 +565,9 @@ impl Ctx {
             return;
         }
         eprintln!("[{}] regression {} FAILED: {}\n    case: {}", self.prop, file.display(), message, case);
+        if let Ok(mut e) = ESTABLISHED.lock() {
+            e.push(file.to_path_buf());
+        }
         self.violations.push(Violation { subcheck: format!("regress/{}", sub), case, message, replay: file.to_path_buf() });
     }
 
